@@ -382,6 +382,11 @@ func visitInstr(fr *frame, instr ssa.Instruction) continuation {
 		if p == nil {
 			panic(m.runtimeError("invalid memory address or nil pointer dereference"))
 		}
+		if ifv, ok := (*p).(iface); ok {
+			// unsafe view of an interface value as its two runtime words {type, data}
+			fr.env[instr] = fr.ifaceWord(ifv, instr.Field)
+			break
+		}
 		fr.env[instr] = &(*p).(structure)[instr.Field]
 
 	case *ssa.Field:
@@ -1003,6 +1008,15 @@ func callBuiltin(caller *frame, callpos token.Pos, fn *ssa.Builtin, args []value
 		}
 		return recv
 
+	case "String":
+		// unsafe.String(ptr, len): the raw memory image at ptr
+		dp, ok := args[0].(*value)
+		n, ok2 := args[1].(*Term)
+		if !ok || !ok2 || !n.isC {
+			unsupported("unsafe.String of %T with length %v", args[0], args[1])
+		}
+		return memString{dp, n.Int()}
+
 	case "Sizeof":
 		sig := fn.Type().(*types.Signature)
 		return mkBV(64, uint64(types.SizesFor("gc", "amd64").Sizeof(sig.Params().At(0).Type())))
@@ -1073,4 +1087,60 @@ func (m *machine) noteArrRead(arr, idx *Term) {
 	if len(m.arrReads) < 512 {
 		m.arrReads = append(m.arrReads, arrRead{base, idx})
 	}
+}
+
+// ifaceWord models the gc runtime layout of an interface value for code that reads it through unsafe:
+// word 0 is the type word (opaque), word 1 the data word, which is the pointer itself for pointer-shaped
+// dynamic types and the address of a copy of the value otherwise. The result is a pointer to a cell holding
+// that word (the caller loads through it).
+func (fr *frame) ifaceWord(ifv iface, field int) *value {
+	cell := new(value)
+	if field == 0 {
+		*cell = (*value)(nil)
+		if ifv.t != nil {
+			tp := new(value)
+			*tp = ifv.t.String()
+			*cell = tp
+		}
+		return cell
+	}
+	if ifv.t == nil {
+		*cell = (*value)(nil)
+		return cell
+	}
+	v := ifv.v
+	// unwrap single-element aggregates: they share the representation of their element
+	t := ifv.t
+	for {
+		switch u := t.Underlying().(type) {
+		case *types.Struct:
+			if u.NumFields() == 1 {
+				t = u.Field(0).Type()
+				v = v.(structure)[0]
+				continue
+			}
+		case *types.Array:
+			if u.Len() == 1 {
+				t = u.Elem()
+				v = v.(array)[0]
+				continue
+			}
+		}
+		break
+	}
+	switch t.Underlying().(type) {
+	case *types.Pointer:
+		*cell = v // pointer-shaped: the data word is the pointer itself
+		return cell
+	case *types.Chan, *types.Map, *types.Signature:
+		unsupported("interface data word of a %v value", t)
+	}
+	if b, ok := t.Underlying().(*types.Basic); ok && b.Kind() == types.UnsafePointer {
+		*cell = v
+		return cell
+	}
+	box := new(value)
+	*box = copyVal(ifv.v)
+	*cell = box
+	return cell
 }
